@@ -1,6 +1,7 @@
 """Registrations of the remaining properties (imported by properties.py)."""
 from __future__ import annotations
 
+from .rules import rename
 from .rules import (agreement, classes_rules, conditions, construction, dispatch, errors_rules, escape, extra, forwarding, gates,
                     memo, mutation, pairs, purity, unions)
 
@@ -213,3 +214,25 @@ def register(_reg, _mt, STD):  # noqa: ANN001
         "no re-wrapping of a caller's text stream, option forwarding completeness through both layers, loader / dumper pairing, unfiltered "
         "document list. The text-level round trip through json / yaml is not decided.",
         "resource-ownership lint; CFG dominance in open_file; forwarding completeness", "DESIGN.md section 21", STD)
+
+    _reg('C20', [rename.rule_c20_r1, rename.rule_c20_r2, rename.rule_c20_r3, rename.rule_c20_r4, classes_rules.rule_c15_r1],
+         "Canonical spelling, injectivity, idempotence and snake-reversibility over ALL identifiers are statements about the algebra of "
+         "str.lower / upper / title / isupper / istitle and two regular expressions; no static argument in reach decides them and this check "
+         "does not claim them. Decided are the structural clauses, each a necessary condition of the property: (R1) rename_field returns "
+         "JOINER[style](SPLIT(field)) for every style and the unchanged name only when no style is given, and the style table is exactly "
+         "the documented style set; (R2) every joiner, evaluated over a symbolic word list (first word / any later word), is the canonical "
+         "form stated in the property (separator, case of first word, case of later words); (R3) writer / reader agreement: every separator "
+         "a joiner writes is split on, the separator pattern is one unrepeated non-alphanumeric character class (a doubled separator "
+         "leaves an empty word), the case-boundary pattern covers exactly A-Z and is captured; (R4) an empty word raises ValueError before "
+         "any word list is returned and rename_field does not catch it; (C15-R1) one renaming implementation. Not decided: the case-"
+         "splitting heuristic of split_case (isupper / islower / istitle, pairing of the re.split result), i.e. whether the words "
+         "recovered from camelCase / PascalCase input are the original ones.",
+         assumptions=["on the property's words (alphabetic, at least two letters) str.capitalize == str.title and str.casefold == str.lower"],
+         trusted=["the interpreter's own regular-expression parser (re._parser) for the structure of pattern constants"])
+    _mt('C20',
+        "Static structural rules on the renaming code: must-pass-through of rename_field (joiner applied to the split words for every style), "
+        "symbolic evaluation of each style's joiner over a word list (first / later word) compared with the canonical spelling table of "
+        "the property, writer/reader agreement of separators and of the capital-letter class via the parsed pattern constants, CFG "
+        "dominance of every normal exit of the splitter by the passing edge of the empty-word test whose failing edge raises ValueError. "
+        "The for-all algebra over identifiers (idempotence, injectivity, reversibility through the case-splitting heuristic) is NOT decided.",
+        "symbolic evaluation of the joiner table; regex-AST agreement; CFG edge dominance", "DESIGN.md sections 22 and 33", STD)
